@@ -288,3 +288,77 @@ def run_create(prog, rep):
         facts_ok = any(pol and t == ('v', dsc.params[1]['lid'], dsc.params[1]['name']) for (t, pol) in fs)
     rule.check(bool(unl) and facts_ok, 'DataSpace::create|unlimited', rep.where(dsc), dsc.q, 'maxdims = H5S_UNLIMITED in every dimension when requested')
     return rule
+
+
+def run_strio(prog, rep):
+    """string marshalling helpers: element i of the caller's std::string array <-> element i of the char* transfer buffer, for all nelms"""
+    rule = rep.rule('R-STRIO', 'StringWriter/StringReader pair element i of the std::string array with element i of the char* buffer for every element of the selection', floor=4)
+    sem = Sem(prog)
+
+    def loops(f):
+        return [n for n in f.walk() if n.k == 'for']
+
+    def full_loop(f, lp, bound_ok):
+        """for (i = 0; i < bound; i++)"""
+        probs = []
+        iv = [v for v in (lp.c[0].walk() if lp.c[0] is not None else []) if v.k == 'var']
+        if not iv or term(unwrap(iv[0].c[0])) != ('k', 0):
+            probs.append('the loop does not start at element 0')
+        cond = term(unwrap(lp.c[1])) if lp.c[1] is not None else None
+        if not (cond and cond[0] == 'b' and cond[1] == '<' and iv and cond[2] == ('v', iv[0].get('lid'), iv[0].get('name')) and bound_ok(cond[3])):
+            probs.append('the loop does not run up to the number of elements (%s)' % (lp.c[1].src(30) if lp.c[1] is not None else None))
+        inc = lp.c[2].src(10).replace(' ', '') if lp.c[2] is not None else ''
+        if iv and inc not in ('%s++' % iv[0].get('name'), '++%s' % iv[0].get('name')):
+            probs.append('the loop does not advance by one element')
+        return probs, (('v', iv[0].get('lid'), iv[0].get('name')) if iv else None)
+
+    for cls, loopfn, direction in (('nix::hdf5::StringWriter', 'finish', 'out'), ('nix::hdf5::StringReader', 'StringReader', 'in')):
+        ctor = [f for f in prog.fns('%s::%s' % (cls, cls.split('::')[-1])) if f.body is not None and len(f.params) == 2 and 'void' not in f.params[1]['type']]
+        if len(ctor) != 1:
+            raise AnalysisBroken('anchor vanished: %s(size, pointer)' % cls)
+        ctor = ctor[0]
+        inits = ' '.join(i.src(60) for i in ctor._inits)
+        probs = []
+        if 'nelms(%s.nelms())' % ctor.params[0]['name'] not in inits.replace(' ', ''):
+            probs.append('nelms is not the number of elements of the selection')
+        if 'data(%s)' % ctor.params[1]['name'] not in inits.replace(' ', ''):
+            probs.append('data is not the caller\'s array')
+        news = [n for n in ctor.walk() if n.k == 'new']
+        fl = Flow(sem, ctor)
+        if not news or not news[0].c or 'nelms' not in repr(fl.origins([c for c in news[0].c if c is not None][0])):
+            probs.append('the transfer buffer is not allocated with nelms entries')
+        rule.check(not probs, '%s|ctor' % cls.split('::')[-1], rep.where(ctor), ctor.label(), 'nelms = size.nelms(); buffer = new char*[nelms]; data = caller array', '; '.join(probs))
+        f = ctor if direction == 'in' else prog.fn('%s::%s' % (cls, loopfn))
+        lps = loops(f)
+        probs = []
+        if len(lps) != 1:
+            probs.append('expected one loop over the elements')
+        else:
+            def bound_ok(t, f=f):
+                if t == ('f', 'nelms'):
+                    return True
+                if t[0] == 'v':
+                    v = sem.local_vars(f).get(t[1])
+                    return v is not None and v.c and v.c[0] is not None and 'nelms' in v.c[0].src(80)
+                return False
+            p, iv = full_loop(f, lps[0], bound_ok)
+            probs += p
+            asg = [n for n in lps[0].walk() if n.k == 'assign' or (n.k == 'call' and n.get('op') == '=')]
+            want_l, want_r = (('f', 'data'), ('f', 'buffer')) if direction == 'out' else (('f', 'buffer'), ('f', 'data'))
+            good = False
+            for a in asg:
+                l, r = term(unwrap(a.c[0])), term(unwrap(a.c[1]))
+                if direction == 'in' and r[:2] == ('m', 'c_str'):
+                    r = r[2]
+                if l == ('idx', want_l, iv) and r == ('idx', want_r, iv):
+                    good = True
+                elif l[:2] == ('idx', want_l):
+                    probs.append('element %s receives %s' % (a.c[0].src(20), a.c[1].src(30)))
+            if not good:
+                probs.append('no assignment pairs element i of both arrays')
+        rule.check(not probs, '%s|%s' % (cls.split('::')[-1], 'copy-out' if direction == 'out' else 'copy-in'), rep.where(f), f.label(),
+                   'for i in [0, nelms): %s' % ('data[i] = buffer[i] (null -> empty)' if direction == 'out' else 'buffer[i] = data[i].c_str()'), '; '.join(sorted(set(probs))))
+        op = prog.fn('%s::operator*' % cls)
+        r = [n for n in op.walk() if n.k == 'return']
+        rule.check(bool(r) and term(unwrap(r[0].c[0])) == ('f', 'buffer'), '%s|operator*' % cls.split('::')[-1], rep.where(op), op.label(), 'hands out the transfer buffer', 'operator* does not return the transfer buffer')
+    return rule
